@@ -87,7 +87,17 @@ func oracleC10(r *Run, w *cliWorld, o *stubOrigin, requireAll bool) {
 	deliveries := w.deliveries
 	w.mu.Unlock()
 	if w.onTracksN == 0 {
-		if requireAll && !(w.waitSeen && w.waitErr != nil && w.waitErr.Error() == "there aren't enough segments to fill the buffer") {
+		// a playlist history that stops the client on its own account (C11's rule) may do so before the first
+		// segment of every stream has arrived
+		legitStop := false
+		if w.waitSeen && w.waitErr != nil {
+			switch w.waitErr.Error() {
+			case "there aren't enough segments to fill the buffer", "next segment not found or not ready yet", "playback is too late":
+				legitStop = true
+				r.Probe("stopped-by-playlist-before-tracks")
+			}
+		}
+		if requireAll && !legitStop {
 			r.Fail("tracks", "never-reported", "OnTracks was never called (Wait: %v %s)", w.waitSeen, describeErr(w.waitErr))
 		}
 		return
